@@ -209,6 +209,24 @@ def check_laws(name, res, viol, stats):
                              f'{name}: after beats_per_bar = {v} at beat '
                              f'{d["beats"]}: meter {d["bpb"]}, base bar '
                              f'beat {d["bbb"]}')
+                elif 'bar0' in d:
+                    # the bar count goes on from the old grid: the bar the
+                    # change happens in, rounded to a whole bar, is where the
+                    # new grid starts counting
+                    import math
+                    b0 = d['bar0']
+                    if abs(b0 - math.floor(b0) - 0.5) > 1e-6 and (
+                            not close(d['base_bar'], math.floor(b0 + 0.5))
+                            or not close(d['bar1'], d['base_bar'])):
+                        viol.add('C12-6', f'{name}-bar-count-discontinuous',
+                                 f'{name}: beats_per_bar = {v} at beat '
+                                 f'{d["beats"]}, bar {b0} of the old grid: '
+                                 f'the new grid counts from bar '
+                                 f'{d["base_bar"]} (beats2bars now '
+                                 f'{d["bar1"]})')
+                    if b0 > 1.25:
+                        stats['meter-change-after-bar-1'] = stats.get(
+                            'meter-change-after-bar-1', 0) + 1
                 stats['meter-changes'] = stats.get('meter-changes', 0) + 1
             else:
                 stats['foreign-meter-change'] = stats.get(
